@@ -98,6 +98,10 @@ def _gen():
     b = find_fn(dsrc, "process_handshake_payload")[2]
     _has(b, r"ctx\.recv_message_seq\s*=\s*ctx\.recv_message_seq\.wrapping_add\(1\)\s*;", "process_handshake_payload wrapping receive counter")
     _has(b, r"recv_message_seq\s*\+=\s*1", "process_handshake_payload unchecked receive counter", 0)
+    # fragment reassembly: shape of the buffer handling, and NO capacity request driven by a peer-declared length
+    _has(b, r"if\s+ctx\.incomplete_msg_seq\s*!=\s*msg\.message_seq\s*\|\|\s*msg\.fragment_offset\s*==\s*0\s*\{\s*ctx\.incomplete_handshake\.clear\(\)\s*;\s*ctx\.incomplete_msg_seq\s*=\s*msg\.message_seq\s*;\s*\}\s*ctx\.incomplete_handshake\.extend_from_slice\(&msg\.body\[\.\.\]\)\s*;\s*if\s+ctx\.incomplete_handshake\.len\(\)\s*<\s*msg\.total_length\s+as\s+usize\s*\{", "process_handshake_payload reassembly shape")
+    _has(b, r"if\s+msg\.total_length\s*!=\s*msg\.fragment_length\s*\{", "process_handshake_payload fragment test")
+    _has(b, r"\b(reserve|reserve_exact|with_capacity|resize|set_len|try_reserve)\s*\(", "process_handshake_payload: capacity requests", 0)
     b = find_fn(dsrc, "handle_client_hello")[2]
     _has(b, r"while\s+ext_buf\.len\(\)\s*>=\s*4\s*\{\s*let\s+ext_type\s*=\s*ext_buf\.get_u16\(\)\s*;\s*let\s+ext_len\s*=\s*ext_buf\.get_u16\(\)\s+as\s+usize\s*;\s*if\s+ext_buf\.len\(\)\s*<\s*ext_len\s*\{\s*break", "handle_client_hello extension walk guards")
     _has(b, r"while\s+idx\s*<\s*2\s*\+\s*len\s*&&\s*idx\s*\+\s*1\s*<\s*_ext_data\.len\(\)\s*\{", "handle_client_hello use_srtp loop guard")
@@ -105,6 +109,11 @@ def _gen():
     b = find_fn(dsrc, "handle_server_hello")[2]
     _has(b, r"while\s+ext_buf\.len\(\)\s*>=\s*4\s*\{\s*let\s+ext_type\s*=\s*ext_buf\.get_u16\(\)\s*;\s*let\s+ext_len\s*=\s*ext_buf\.get_u16\(\)\s+as\s+usize\s*;\s*if\s+ext_buf\.len\(\)\s*<\s*ext_len\s*\{\s*break", "handle_server_hello extension walk guards")
     _has(b, r"if\s+ext_data\.len\(\)\s*>=\s*5\s*\{", "handle_server_hello use_srtp length guard")
+
+    # no vector capacity may be requested from a length field read off the wire in the handshake decoders
+    hsrc = strip_comments(read(HS))
+    for impl in ["HandshakeMessage", "ClientHello", "ServerHello", "HelloVerifyRequest", "ServerKeyExchange", "CertificateMessage", "ClientKeyExchange", "Finished"]:
+        _has(find_fn(hsrc, "decode", impl)[2], r"\b(reserve|reserve_exact|with_capacity|resize|set_len|try_reserve)\s*\(", impl + "::decode: capacity requests", 0)
 
     # ------------------------------------------------------------------ DCEP
     src = strip_comments(read(DC))
@@ -150,6 +159,10 @@ def _gen():
     b = find_fn(src, "process_data_payload")[2]
     put("SCTP_DATA_TSN_SKIP", _one(b, r"buf\.advance\(NUM\)\s*;", "process_data_payload TSN skip"), "process_data_payload TSN skip", SCTP)
     _has(b, r"let\s+stream_id\s*=\s*buf\.get_u16\(\)\s*;\s*let\s+stream_seq\s*=\s*buf\.get_u16\(\)\s*;\s*let\s+payload_proto\s*=\s*buf\.get_u32\(\)\s*;", "process_data_payload reads")
+    for fn_name in ["handle_packet", "handle_init_ack", "handle_sack", "handle_forward_tsn", "handle_reconfig", "handle_reconfig_outgoing_ssn_reset", "handle_data", "process_data_payload", "handle_dcep"]:
+        _has(find_fn(src, fn_name)[2], r"\b(reserve|reserve_exact|with_capacity|resize|set_len|try_reserve)\s*\(", "sctp " + fn_name + ": capacity requests", 0)
+    b = find_fn(src, "handle_data")[2]
+    _has(b, r"let\s+mut\s+buf\s*=\s*chunk\.clone\(\)\s*;\s*if\s+buf\.remaining\(\)\s*<\s*12\s*\{\s*return\s+Ok\(\(\)\)", "handle_data 12-byte header guard before anything is queued")
     b = find_fn(src, "handle_dcep")[2]
     _has(b, r"if\s+data\.is_empty\(\)\s*\{\s*return\s+Ok", "handle_dcep empty guard")
 
